@@ -25,6 +25,7 @@
     c07 opdoc <op> <l> <r>     → ok | rej         (documented rule `Typing.binopTy`)
     c07 neg <t> / c07 not <t>  → ok <t> | rej
     c07 assign <0|1> <local|constant|context> → ok | rej   (`TcRules.assignAccepts`; 1 = compound)
+    c07 tostr none | c07 tostr <ret> <param>…  → ok | rej   (`TcBuiltin.fstringPartAccepts`: the `to_string` a part's type has; types 0 = the part's type, 1 = String, others)
     c07 match <v:arity,…> <arm,…>   → ok | err <kind> ; doc ok | doc err <kind>
         arm ::= _[g] | NAME:n[g] | NAME:b<k>[:dup][g]   (NAME = some|none|K<i>)
     c07 unify <sexp>           → same output format as the hook
@@ -53,6 +54,7 @@ import RotoV.Model.TcInfer
 import RotoV.Model.TcInferSem
 import RotoV.Model.TcValueCycle
 import RotoV.Model.TcModules
+import RotoV.Model.TcBuiltin
 
 namespace Driver.C07
 open RotoV RotoV.Typing
@@ -652,6 +654,12 @@ def handle (args : List String) : String :=
     match kind with
     | some kind => if TcRules.assignAccepts (c == "1") kind then "ok" else "rej"
     | none => "bad-op"
+  | ["tostr", "none"] =>
+    if TcBuiltin.fstringPartAccepts (none : Option (TcBuiltin.Sig Nat)) 0 1 then "ok" else "rej"
+  | "tostr" :: ret :: ps =>
+    -- `c07 tostr <ret> <param>…`: the found `to_string` signature over ground types 0 = the part's type,
+    -- 1 = String, others; `TcBuiltin.fstringPartAccepts` (resolve_obligations as written)
+    if TcBuiltin.fstringPartAccepts (some ⟨ps.map String.toNat!, ret.toNat!⟩) 0 1 then "ok" else "rej"
   | ["neg", t] => match parseOTy t with
     | some t => showRes (TcRules.negateReal t) | none => "bad-op"
   | ["not", t] => match parseOTy t with
